@@ -76,7 +76,7 @@ func genCrud(r *gen.R, sess int) sched.Op {
 }
 
 func genScenario(r *gen.R) sched.Scenario {
-	kinds := []string{"crud", "crud", "session", "session", "wtx", "shared", "shared", "close", "direct", "stream", "endstart"}
+	kinds := []string{"crud", "crud", "session", "session", "wtx", "shared", "shared", "close", "direct", "stream", "endstart", "store", "store"}
 	kind := kinds[r.N(len(kinds))]
 	return genScenarioKind(r, kind)
 }
@@ -96,6 +96,24 @@ func genScenarioKind(r *gen.R, kind string) sched.Scenario {
 			}
 			sc.Actors = append(sc.Actors, s)
 		}
+	case "store":
+		// writers and readers around a writer that is parked inside its store write (see schedGen)
+		sc.Sessions = n
+		for a := 1; a <= n; a++ {
+			var s []sched.Op
+			switch {
+			case a == 1 && r.P(30):
+				s = []sched.Op{{Kind: "sstart", Sess: 1}, {Kind: "inc", Sess: 1}, {Kind: "scommit", Sess: 1}}
+			case a == 1:
+				s = []sched.Op{{Kind: []string{"inc", "fau", "ins", "ins3"}[r.N(4)]}}
+			default:
+				for k := 1 + r.N(2); k > 0; k-- {
+					s = append(s, sched.Op{Kind: []string{"inc", "fau", "find", "ins"}[r.N(4)]})
+				}
+			}
+			sc.Actors = append(sc.Actors, s)
+		}
+		sc.FileStore = r.P(25)
 	case "session":
 		sc.Sessions = n
 		for a := 1; a <= n; a++ {
@@ -414,7 +432,15 @@ func schedGen(r *gen.R, idx int) []run.Case {
 		extra = schedThorough(r, idx)
 	}
 	sc := genScenario(r)
-	ch := &sched.Rand{Next: r.N, Stay: 40 + r.N(50), Flt: 25}
+	var ch sched.Chooser = &sched.Rand{Next: r.N, Stay: 40 + r.N(50), Flt: 25}
+	if sc.Kind == "store" {
+		// actor 1 runs until it is parked inside the store write, then the others run as far as they can
+		steps := []sched.Directive{{Actor: 1, Until: []string{"store.enter", "store.exit", "commit.store"}[r.N(3)]}}
+		for a := 2; a <= len(sc.Actors); a++ {
+			steps = append(steps, sched.Directive{Actor: a, Until: "done"})
+		}
+		ch = &sched.Directed{Steps: steps, Then: ch}
+	}
 	return append(extra, schedCase(sc, ch))
 }
 
@@ -441,19 +467,26 @@ func schedReplay(req string) string {
 // schedCorpus: fixed scenarios that run first (past failures and the critical interleavings).
 func schedCorpus() []run.Case {
 	var out []run.Case
-	for i, sc := range corpusScenarios() {
+	scs, directed := corpusScenarios()
+	for i, sc := range scs {
 		r := gen.New(77, 0, uint64(i))
-		out = append(out, schedCase(sc, &sched.Rand{Next: r.N, Stay: 30, Flt: 30}))
+		var ch sched.Chooser = &sched.Rand{Next: r.N, Stay: 30, Flt: 30}
+		if d, ok := directed[i]; ok {
+			ch = &sched.Directed{Steps: d, Then: &sched.Rand{Next: r.N, Stay: 90}}
+		}
+		out = append(out, schedCase(sc, ch))
 	}
 	return out
 }
 
-func corpusScenarios() []sched.Scenario {
+// corpusScenarios returns the fixed scenarios and, for some of them (by index), a directed schedule.
+func corpusScenarios() ([]sched.Scenario, map[int][]sched.Directive) {
 	S := func(kind string, sess int, shared bool, actors ...[]sched.Op) sched.Scenario {
 		return sched.Scenario{Kind: kind, Sessions: sess, Shared: shared, Actors: actors}
 	}
 	o := func(k string, s int) sched.Op { return sched.Op{Kind: k, Sess: s} }
 	var out []sched.Scenario
+	directed := map[int][]sched.Directive{}
 	// shared session: Start/Abort loop against a CRUD call with the session context (defect #13)
 	for i := 0; i < 6; i++ {
 		out = append(out, S("shared", 1, true,
@@ -475,6 +508,27 @@ func corpusScenarios() []sched.Scenario {
 	cf := S("session", 2, false, []sched.Op{o("sstart", 1), o("ins", 1), o("scommit", 1)}, []sched.Op{o("inc", 0)})
 	cf.AllowCancel = true
 	out = append(out, cf, cf)
+	// a writer is parked INSIDE the store write of its commit (pseudo points store.enter / store.exit)
+	// while the other actors run as far as they can; then it resumes.  Expected on correct code: the
+	// others are blocked (model: step disabled), counter = number of increments, history checker happy.
+	for _, at := range []string{"store.enter", "store.exit"} {
+		for v := 0; v < 4; v++ {
+			var sc sched.Scenario
+			switch v {
+			case 0:
+				sc = S("store", 0, false, []sched.Op{o("inc", 0)}, []sched.Op{o("inc", 0)})
+			case 1:
+				sc = S("store", 0, false, []sched.Op{o("inc", 0)}, []sched.Op{o("fau", 0)}, []sched.Op{o("find", 0)})
+			case 2:
+				sc = S("store", 1, false, []sched.Op{o("sstart", 1), o("inc", 1), o("scommit", 1)}, []sched.Op{o("inc", 0)}, []sched.Op{o("find", 0)})
+			case 3:
+				sc = S("store", 0, false, []sched.Op{o("inc", 0)}, []sched.Op{o("inc", 0), o("find", 0)})
+				sc.FileStore = true
+			}
+			out = append(out, sc)
+			directed[len(out)-1] = []sched.Directive{{Actor: 1, Until: at}, {Actor: 2, Until: "done"}, {Actor: 3, Until: "done"}, {Actor: 1, Until: "done"}}
+		}
+	}
 	// client misuse: a finished transaction is committed again while others write
 	for i := 0; i < 6; i++ {
 		out = append(out, S("direct", 0, false,
@@ -485,7 +539,7 @@ func corpusScenarios() []sched.Scenario {
 	out = append(out, S("crud", 0, false, []sched.Op{o("bad", 0), o("inc", 0)}, []sched.Op{o("bad", 0)}))
 	// close in the middle
 	out = append(out, S("close", 1, false, []sched.Op{o("inc", 0), o("inc", 0)}, []sched.Op{{Kind: "close"}}, []sched.Op{o("sstart", 1), o("scommit", 1)}))
-	return out
+	return out, directed
 }
 
 // ---- thorough tier: DFS over all interleavings of tiny scripts, and free-running stress ----
